@@ -77,7 +77,7 @@ int BitEntry::SetFirstBit(const char *first_bit)
     r = gd_alter_entry(D->D, E.field, &E, 0);
 
     if (!r)
-      r = gd_get_constant(D->D, first_bit, GD_INT16, &E.u.bit.bitnum);
+      r = gd_cxx_get_scalar(D->D, first_bit, GD_INT16, &E.u.bit.bitnum);
   }
   
   return r;
@@ -93,7 +93,7 @@ int BitEntry::SetNumBits(const char *num_bits)
     r = gd_alter_entry(D->D, E.field, &E, 0);
 
     if (!r)
-      r = gd_get_constant(D->D, num_bits, GD_INT16, &E.u.bit.numbits);
+      r = gd_cxx_get_scalar(D->D, num_bits, GD_INT16, &E.u.bit.numbits);
   }
   
   return r;
